@@ -2,6 +2,7 @@ package sched
 
 import (
 	"io"
+	"os"
 	"net"
 	"time"
 )
@@ -21,6 +22,10 @@ type Conn struct {
 	// the moment the peer hangs up is the environment's choice (a scheduling point)
 	AtEOF   func()
 	eofSeen bool
+	// RefuseWrite, when set, is asked before every Write: true means the peer does not take the bytes (it
+	// has stopped reading and its buffers are full) and this caller would block; the environment
+	// notes who that is, and the write fails instead of blocking so that the execution ends
+	RefuseWrite func() bool
 }
 
 // NewConn: the output sink has a fixed capacity so that Write never reallocates (the runtime's slice
@@ -53,6 +58,9 @@ func (c *Conn) Read(b []byte) (int, error) {
 func (c *Conn) Write(b []byte) (int, error) {
 	if c.closed {
 		return 0, net.ErrClosed
+	}
+	if c.RefuseWrite != nil && c.RefuseWrite() {
+		return 0, os.ErrDeadlineExceeded
 	}
 	if n := len(c.out); n+len(b) <= cap(c.out) {
 		c.out = c.out[:n+len(b)]
